@@ -165,10 +165,17 @@ func ParentMain(propID, tier string, seed int64, workerBin string) int {
 						return
 					}
 					// watchdog: re-run the case alone under a CPU limit
-					c2, s2 := runChild(p, workerBin, propID, tier, seed, sh, nsh, 0, cur.Idx, dir, st.attempts, 20)
+					cpu := p.HangCPU
+					if cpu == 0 {
+						cpu = 20
+					}
+					c2, s2 := runChild(p, workerBin, propID, tier, seed, sh, nsh, 0, cur.Idx, dir, st.attempts, cpu)
 					mu.Lock()
-					if c2 == 152 || c2 == 137 || c2 == 97 || c2 == -24 {
-						m.Violations = append(m.Violations, Violation{Property: propID, Tier: tier, Seed: seed, Idx: cur.Idx, Kind: "hang", Key: "hang|" + hangKey(cur.Input), Input: cur.Input, Detail: "case exceeded the per-case watchdog and then 20 s of CPU when re-run alone"})
+					if c2 == 97 {
+						// the generous wall-clock backstop of the isolated re-run: no verdict
+						m.Inconclusive = append(m.Inconclusive, fmt.Sprintf("case %d: watchdog fired and the isolated re-run did not finish within its wall-clock backstop (CPU limit not reached)", cur.Idx))
+					} else if c2 == 152 || c2 == 137 || c2 == -24 {
+						m.Violations = append(m.Violations, Violation{Property: propID, Tier: tier, Seed: seed, Idx: cur.Idx, Kind: "hang", Key: "hang|" + hangKey(cur.Input), Input: cur.Input, Detail: fmt.Sprintf("case exceeded the per-case watchdog and then %d s of CPU when re-run alone", cpu)})
 					} else if c2 != 0 {
 						k, d := classifyDeath(tailFile(s2, 1<<16))
 						m.Violations = append(m.Violations, Violation{Property: propID, Tier: tier, Seed: seed, Idx: cur.Idx, Kind: "fatal", Key: k, Input: cur.Input, Detail: d})
